@@ -19,5 +19,5 @@ for patch in $DIR/*.diff; do
   nv=$(grep -c '^VIOLATION' $OUT/log)
   if [ $rc -eq 1 ] && [ $nv -gt 0 ]; then verdict=detected; else verdict="MISSED(rc=$rc)"; fi
   echo "$name: property=$id repo-tests=$tests check=$verdict violations=$nv  $(grep -m1 'signature:' $OUT/log | cut -c1-150)"
-  git -C /repo worktree remove --force $S; rm -rf $OUT /verif/.bin/gotsmc-* /verif/.bin/alt-*
+  git -C /repo worktree remove --force $S; T=$(echo "$S" | md5sum | cut -c1-10); rm -rf $OUT /verif/.bin/gotsmc-$T /verif/.bin/alt-$T.mod
 done
